@@ -118,6 +118,11 @@ def run(pid, tier):
         for i in range(nr):
             fp = {"C06": 0.8, "C04": 0.15, "C05": 0.4}[pid]
             scenarios.append(runlib.random_scenario(chk.seed * 100000 + i, fail_prob=fp))
+    # a few scenarios also record the internal hook events for validation against RunImpl (model binding)
+    if pid != "C16":
+        for sc in scenarios[:: max(1, len(scenarios) // (10 if tier == "quick" else 120))]:
+            if sc["mode"] != "changed":
+                sc["hook_trace"] = True
     results = run_all(bins, scenarios, workers=6 if pid == "C16" else 12)
     records, tool_errors = [], 0
     for rec, dbg in results:
@@ -132,6 +137,32 @@ def run(pid, tier):
             continue
         rec["stderr_tail"] = dbg.get("stderr", "")[-300:]
         records.append(rec)
+    # ---- internal traces against the implementation-shaped model (MODEL-DRIFT, never a violation)
+    traces = [runlib.impl_trace(rec, dbg) for rec, dbg in results if rec is not None and dbg.get("hooks")]
+    traces = [t for t in traces if t]
+    if traces:
+        import tempfile, shutil, os as _os
+        tmp = tempfile.mkdtemp(prefix="impltrace-")
+        jobs = []
+        for i, t in enumerate(traces):
+            pth = _os.path.join(tmp, "t%d.ndjson" % i)
+            with open(pth, "w") as f:
+                for e in t:
+                    f.write(json.dumps(e) + "\n")
+            cfg = ("CONSTANTS PlanSet <- TracePlanSet\n TolerateClosed = TRUE\n CanFail = TRUE\n BarrierMode = FALSE\n"
+                   "SPECIFICATION TSpec\nINVARIANT NotAccepted\nCHECK_DEADLOCK FALSE\n")
+            jobs.append(dict(module="trace/RunImplTrace", cfg_text=cfg, workers=1, timeout=300, env={"TRACE": pth}, xmx="2g", deque=True))
+        res = vlib.tlc_parallel(jobs, max_parallel=8)
+        shutil.rmtree(tmp, ignore_errors=True)
+        accepted = sum(1 for r in res if "NotAccepted" in r.violated)
+        drift = [traces[i][0] for i, r in enumerate(res) if "NotAccepted" not in r.violated]
+        for r in res:
+            chk.cov["states"] += r.distinct
+            chk.cov["transitions"] += r.generated
+        chk.cov["internal_traces_validated_against_RunImpl"] = len(traces)
+        chk.cov["internal_traces_accepted"] = accepted
+        if drift:
+            chk.notes.append({"MODEL-DRIFT": "%d internal hook traces are not behaviours of RunImpl" % len(drift), "first_plan": drift[0]})
     if tool_errors > len(scenarios) // 4:
         raise vlib.ToolError("%d of %d scenarios could not be driven" % (tool_errors, len(scenarios)))
     for r in records:
